@@ -662,3 +662,9 @@ package io
 //@   loop 1 invariant 0 <= i && len(metadata) >= 2 && n == len(fields) && ghost.held[addr(encoder.RWMutex)] == 1
 //@   atcall registerValueEncoder [class_metadata_complete_and_still_write_locked] len(encoder.metadata) >= 3 && ghost.held[addr(encoder.RWMutex)] == 1
 //@   ensures [lock_released] result != nil && ghost.held[addr(result.RWMutex)] == 0
+
+// ---- encapsulation of the window (C05) -----------------------------------------------------------
+// only the input primitives (and the constructors / resets) touch buf, head, tail and reader:
+// every other decode routine is a client of the primitives, so its outcome is a function of the
+// logical stream and position
+//@ rule encapsulated Decoder.head funcs=NewDecoder,NewDecoderFromReader,(*Decoder).loadMore prop=C05
